@@ -25,12 +25,17 @@ mutual
     | (k, v) :: r => 1 + size k + size v + sizePairs r
 end
 
+def isTag : Cbor → Bool
+  | .tag _ _ => true
+  | _ => false
+
 mutual
-  /-- nesting depth (arrays, maps and tags each count one level) -/
+  /-- nesting depth as fxamacker counts it: arrays and maps one level each; of a run of consecutive tags every tag
+      but the first -/
   def depth : Cbor → Nat
     | .arr xs => 1 + depthList xs
     | .map kvs => 1 + depthPairs kvs
-    | .tag _ v => 1 + depth v
+    | .tag _ v => (if isTag v then 1 else 0) + depth v
     | _ => 0
   def depthList : List Cbor → Nat
     | [] => 0
@@ -101,6 +106,29 @@ theorem keysSorted_tail {a : Cbor × Cbor} {r : List (Cbor × Cbor)} (h : KeysSo
   simp only [encodePairs] at h
   exact (List.pairwise_cons.mp h).2
 
+/-- the first head of an encoding tells whether the item is a tag -/
+theorem isTagHead_encode (w : Cbor) (hw : WF w) (r : Bytes) : isTagHead (encode w ++ r) = isTag w := by
+  unfold isTagHead
+  cases w with
+  | uint n => simp only [WF, two64] at hw; simp only [encode, decHead_head 0 n r (by omega) hw]; rfl
+  | nint n => simp only [WF, two64] at hw; simp only [encode, decHead_head 1 n r (by omega) hw]; rfl
+  | bstr b => simp only [WF, two64] at hw; simp only [encode, List.append_assoc, decHead_head 2 b.length _ (by omega) hw]; rfl
+  | tstr b => simp only [WF, two64] at hw; simp only [encode, List.append_assoc, decHead_head 3 b.length _ (by omega) hw.1]; rfl
+  | arr xs =>
+    simp only [WF] at hw
+    have hlen : xs.length < 18446744073709551616 := by have := hw.1; unfold maxElems at this; omega
+    simp only [encode, List.append_assoc, decHead_head 4 xs.length _ (by omega) hlen]; rfl
+  | map kvs =>
+    simp only [WF] at hw
+    have hlen : kvs.length < 18446744073709551616 := by have := hw.1; unfold maxElems at this; omega
+    simp only [encode, List.append_assoc, decHead_head 5 kvs.length _ (by omega) hlen]; rfl
+  | tag t v => simp only [WF, two64] at hw; simp only [encode, List.append_assoc, decHead_head 6 t _ (by omega) hw.1]; rfl
+  | simple n =>
+    simp only [WF] at hw
+    have hn : n < 18446744073709551616 := by omega
+    simp only [encode, decHead_head 7 n r (by omega) hn]; rfl
+  | float _ _ => simp [WF] at hw
+
 mutual
   theorem decode_encode (v : Cbor) (hw : WF v) (f d : Nat) (r : Bytes)
       (hf : size v ≤ f) (hd : depth v ≤ d) : decode f d (encode v ++ r) = some (v, r) := by
@@ -147,10 +175,19 @@ mutual
       simp only [WF, two64] at hw
       simp only [size] at hf
       simp only [depth] at hd
-      simp only [encode, decode, List.append_assoc, decHead_head 6 t _ (by omega) hw.1]
-      have hd0 : ¬ d = 0 := by omega
-      rw [decode_encode w hw.2.1 f (d - 1) r (by omega) (by omega)]
-      simp [hd0, hw.2.2]
+      simp only [encode, decode, List.append_assoc, decHead_head 6 t _ (by omega) hw.1, isTagHead_encode w hw.2.1 r]
+      cases hit : isTag w with
+      | true =>
+        simp only [hit, if_true] at hd
+        have hd0 : ¬ d = 0 := by omega
+        simp only [if_true, true_and]
+        rw [decode_encode w hw.2.1 f (d - 1) r (by omega) (by omega)]
+        simp [hd0, hw.2.2]
+      | false =>
+        simp only [hit, Bool.false_eq_true, if_false, Nat.zero_add] at hd
+        simp only [Bool.false_eq_true, if_false, false_and]
+        rw [decode_encode w hw.2.1 f d r (by omega) hd]
+        simp [hw.2.2]
     | .simple n, f + 1 =>
       simp only [WF] at hw
       have hn : n < 18446744073709551616 := by omega
